@@ -623,7 +623,7 @@ func (e *Engine) chanSendHook(f *Frame, x *ssa.Send, st *State) {
 	v.Go = et
 	for _, inv := range c.Invs {
 		g := f.evalClause(inv, map[string]Val{c.Params[0].Name: v}, st, st)
-		f.un.obligeNamed(st, fmt.Sprintf("chan:%s#%d@%s", TypeKey(et), inv.Idx, f.un.posOf(x.Pos())), "channel", inv.Text, f.un.posOf(x.Pos()), g)
+		f.un.obligeNamed(st, fmt.Sprintf("chan:%s#%s@%s", TypeKey(et), inv.label(), f.un.posOf(x.Pos())), "channel", inv.Text, f.un.posOf(x.Pos()), g)
 	}
 }
 
@@ -648,7 +648,7 @@ func (e *Engine) selectSendHook(f *Frame, x *ssa.Select, i int, idx Term, st *St
 	v.Go = et
 	for _, inv := range c.Invs {
 		g := f.evalClause(inv, map[string]Val{c.Params[0].Name: v}, st, st)
-		f.un.obligeNamed(st, fmt.Sprintf("chan:%s#%d@%s", TypeKey(et), inv.Idx, f.un.posOf(x.Pos())), "channel", inv.Text, f.un.posOf(x.Pos()), g)
+		f.un.obligeNamed(st, fmt.Sprintf("chan:%s#%s@%s", TypeKey(et), inv.label(), f.un.posOf(x.Pos())), "channel", inv.Text, f.un.posOf(x.Pos()), g)
 	}
 }
 // callbackKey names a function value by where it comes from: "T.field" for a struct field,
